@@ -755,14 +755,18 @@ func c09EnumCombined(c *vf.Ctx, maxN int) {
 					stsc = append(stsc, tableref.StscEntry{FirstChunk: uint32(i + 1), SamplesPerChunk: uint32(cnt), DescID: 1})
 				}
 			}
-			for variant := 0; variant < 8; variant++ {
+			for variant := 0; variant < 24; variant++ {
+				// run pattern of the durations (and composition offsets): runs of 1, 2 and 3 equal values, so that an
+				// interval can start inside a run and end in a later one
+				runLen := 1 + variant/8
+				variant := variant % 8
 				t := tableref.Tables{StszCount: uint32(n), Stsc: stsc}
 				// two values per table
 				durs, sizes, ctos := make([]int64, n), make([]uint32, n), make([]int64, n)
 				for i := 0; i < n; i++ {
-					durs[i] = 1 + int64((i+variant)%2)
+					durs[i] = 1 + int64((i/runLen+variant)%2)
 					sizes[i] = 1 + uint32((i+variant/2)%2)*2
-					ctos[i] = int64((i + variant/4) % 2)
+					ctos[i] = int64((i/runLen + variant/4) % 2)
 				}
 				t.Stts = tableref.RunsFromValues(durs)
 				if variant&1 == 0 {
@@ -826,7 +830,7 @@ func runC09(c *vf.Ctx) {
 		maxN, combN = 10, 7
 		c.SetBudget(10 * 60 * 1e9)
 	}
-	c.Rule = "every run-length table of N samples: stts = all compositions of N x deltas {1,2,3,2^31,2^32-1} per run (+ final single zero duration); ctts v0/v1 = all compositions x offsets {0,1,2}/{0,1,-1} (+ a zero-count run at every position); stsc = all chunkings (compositions) x every run-length encoding of the chunking (canonical and redundant) x description ids {1,2} per entry; stsz uniform / all size vectors over {1,2,3,2^31,2^32-1}; stco/co64 boundary offsets; stss every subset; sdtp all 256 entry values. Tables are serialised by an independent raw writer, decoded by the library, and every query is asked for every sample number, every interval 1<=a<=b<=N and every time 0..total+1 and compared with the naive per-sample expansion. Combined queries (GetSampleData, GetRangesForSampleInterval, CopySampleData in memory and lazy with work buffers of 0,1,2,3,4,6 bytes) on generated files for all chunkings of N samples x 8 table variants x {1,2} tracks; on the files with N-2 or fewer samples every ORDERED PAIR of queries (all per-sample, per-interval, per-chunk and per-time queries of a track) is asked on a freshly decoded file and the second answer must equal the answer given alone. A case = one table/file (distinct by construction)."
+	c.Rule = "every run-length table of N samples: stts = all compositions of N x deltas {1,2,3,2^31,2^32-1} per run (+ final single zero duration); ctts v0/v1 = all compositions x offsets {0,1,2}/{0,1,-1} (+ a zero-count run at every position); stsc = all chunkings (compositions) x every run-length encoding of the chunking (canonical and redundant) x description ids {1,2} per entry; stsz uniform / all size vectors over {1,2,3,2^31,2^32-1}; stco/co64 boundary offsets; stss every subset; sdtp all 256 entry values. Tables are serialised by an independent raw writer, decoded by the library, and every query is asked for every sample number, every interval 1<=a<=b<=N and every time 0..total+1 and compared with the naive per-sample expansion. Combined queries (GetSampleData, GetRangesForSampleInterval, CopySampleData in memory and lazy with work buffers of 0,1,2,3,4,6 bytes) on generated files for all chunkings of N samples x 8 table variants x 3 run-length patterns of the per-sample values x {1,2} tracks; on the files with N-2 or fewer samples every ORDERED PAIR of queries (all per-sample, per-interval, per-chunk and per-time queries of a track) is asked on a freshly decoded file and the second answer must equal the answer given alone. A case = one table/file (distinct by construction)."
 	c.Bound = fmt.Sprintf("single tables: N <= %d; combined: N <= %d", maxN, combN)
 	c09EnumStts(c, maxN)
 	c09EnumCtts(c, maxN)
